@@ -1055,7 +1055,6 @@ def _apply_fn_full(d, log, fnmap, out_lineno, stub_only=False):
                       'obls': sorted(set(re.findall(r'//\s*OBL\s+(\S+)', '\n'.join(d.raw))))})
         return text
     new_calls = []
-    shape = loop_shape(body)
     if d.calls is not None:
         new_calls = [c for c in call_names(body) if c not in d.calls]
     if d.locals is not None:
@@ -1083,6 +1082,8 @@ def _apply_fn_full(d, log, fnmap, out_lineno, stub_only=False):
         body = rule_r11_r12_zip_collect(body, log, where)
     if 'R4' not in d.norules:
         body = rule_r4_any_all(body, log, where)
+    # the loop / exit structure after the rewrite rules (a new `.any(..)` or `.collect()` is a new loop the template has no contract for)
+    shape = loop_shape(body)
     # collect insertions on the (rewritten) body, all computed against the same text
     bk = rs.code_mask(body)
     edits = []  # (start, end, text): insertion when start == end, else replacement
